@@ -56,7 +56,12 @@ Definition lcase_ok (c : lcase) : bool :=
    to that grid), the single worker played by the harness. After every event the harness
    waited for the queue's waiting loop to block again and recorded Len(); for a hand-over
    it recorded the item Get returned. The model must accept the history (every internal
-   event exactly when due) and show the same queue length and the same item. *)
+   event exactly when due) and show the same queue length and the same item.
+   Wrapper cases use the same record: there the real pkg/utils/workqueue.WorkQueue (New,
+   Start, Add, process) runs on that queue; WorkQueue.Add is an Arrive, the start of the
+   callback in the real worker goroutine is the Get, a callback returning nil (Forget + Done)
+   is a Done, a callback returning an error (AddRateLimited + Done) is an Arrive followed by a
+   Done at the same instant. *)
 Record qcase := { qid : N; qreload : bool; qdelta : Z; qwait : Z; qD : Z;
                   qevents : list (Z * qevent); qobs : list (Z * option nat) }.
 
